@@ -317,6 +317,8 @@ def _binom_p(k, n, p):
 
 
 def marginal_check(ctx, sub, quick):
+    if ctx.shard_id != 0:
+        return
     import EoN
     import networkx as nx
     G = nx.star_graph(3)   # centre 0 with 3 leaves: same-source pairs exist
